@@ -50,6 +50,8 @@ type ownSvc struct {
 	jwtSch                              *security.JWTScheme
 	oauthSch                            *security.OAuth2Scheme
 	bearerRan, oauthRan, publicRan      int
+	createRan                           int
+	createName                          string
 }
 
 func (s *ownSvc) JWTAuth(ctx context.Context, token string, sc *security.JWTScheme) (context.Context, error) {
@@ -71,6 +73,16 @@ func (s *ownSvc) OAuth2Auth(ctx context.Context, token string, sc *security.OAut
 func (s *ownSvc) Bearer(context.Context, *own.BearerPayload) error { s.bearerRan++; return nil }
 func (s *ownSvc) Oauth(context.Context, *own.OauthPayload) error   { s.oauthRan++; return nil }
 func (s *ownSvc) Public(context.Context) error                     { s.publicRan++; return nil }
+func (s *ownSvc) Create(ctx context.Context, p *own.CreatePayload) error {
+	s.createRan++
+	s.createName = p.Name
+	return nil
+}
+func (s *ownSvc) Create2(ctx context.Context, p *own.Create2Payload) error {
+	s.createRan++
+	s.createName = p.Name
+	return nil
+}
 
 func wire(req *http.Request) *http.Request {
 	target := req.URL.RequestURI()
@@ -176,4 +188,47 @@ func sameStrings2(a []string, b ...string) bool {
 		}
 	}
 	return true
+}
+
+// VerifC06_s2_implicit_header_with_body: the token is mapped implicitly to
+// the Authorization header while the body is given explicitly (one attribute,
+// or an inline body listing the other attributes).
+func VerifC06_s2_implicit_header_with_body() {
+	s := &ownSvc{jwtOK: true}
+	mux := goahttp.NewMuxer()
+	var sent any
+	dec := func(*http.Request) goahttp.Decoder {
+		return stubDecoder{func(v any) error { return verifJSONCopy(v, sent) }}
+	}
+	enc := func(*http.Request) goahttp.Encoder { return stubEncoder{func(b any) error { sent = b; return nil }} }
+	srv := owns.New(own.NewEndpoints(s), mux, dec, recEncoder(), nil, nil)
+	owns.Mount(mux, srv)
+	c := ownc.NewClient("http", "example.com", nil, nil, nil, false)
+	token := nondetString("token", 1) + nondetStringUpTo("token-tail", 2)
+	verifAssume(visible(token))
+	name := nondetStringUpTo("name", 2)
+	w := newRecWriter()
+	inline := nondetBool("inline-body")
+	if !inline {
+		p := &own.CreatePayload{Token: token, Name: name}
+		req, err := c.BuildCreateRequest(context.Background(), p)
+		verifAssert("create:request-built", err == nil)
+		if err != nil {
+			return
+		}
+		verifAssert("create:request-encoded", ownc.EncodeCreateRequest(enc)(req, p) == nil)
+		mux.ServeHTTP(w, wire(req))
+		verifAssert("create:callback-gets-the-token-without-prefix", s.jwtCalls == 1 && s.token == token)
+		verifAssert("create:method-ran-with-body-attribute", s.createRan == 1 && s.createName == name)
+		return
+	}
+	p := &own.Create2Payload{Token: token, Name: name}
+	req, err := c.BuildCreate2Request(context.Background(), p)
+	verifAssert("create2:request-built", err == nil)
+	if err != nil {
+		return
+	}
+	verifAssert("create2:request-encoded", ownc.EncodeCreate2Request(enc)(req, p) == nil)
+	mux.ServeHTTP(w, wire(req))
+	verifAssert("create2:callback-gets-the-token[implicit-token-with-inline-body]", s.jwtCalls == 1 && s.token == token)
 }
